@@ -47,6 +47,8 @@ def coq_op(op):
             rk = 'ROther'
         elif kind == 'setks':
             rk = 'RSetKs'
+        elif kind == 'schema':
+            rk = 'RSchema'
         else:
             rk = 'RJunk'
         return '(Resp %d %s)' % (op[1], rk)
@@ -60,6 +62,10 @@ def coq_op(op):
         return 'AddCb'
     if k == 'result':
         return 'Result'
+    if k == 'shutdown':
+        return 'Shutdown'
+    if k == 'refresh':
+        return '(RunRefresh %d)' % op[1]
     if k == 'ksreport':
         return '(KsReport %d %s %s)' % (op[1], z(op[2]), 'true' if op[3] else 'false')
     raise ValueError(op)
@@ -158,7 +164,7 @@ class Oracle(object):
                 if neb and not (f._event.is_set() and not fr_set and w.canon_exc(f._final_exception) == p['eb'][0]):
                     self._add('C14', 'result-mismatch.%s' % name, 'errback got %r but result() would not raise it' % (p['eb'][0],), i)
         # ---- C14: outcome delivered once everything is answered / the timeout fired
-        answered = bool(w.attempts) and not w.open_attempts() and not w.queue and not any(ch['waiting'] for ch in w.chains)
+        answered = bool(w.attempts) and not w.open_attempts() and not w.queue and not w.refreshes and not any(ch['waiting'] for ch in w.chains)
         if answered or self.timeout_done:
             ok = f._event.is_set() and (fr_set or fe_set) and all(len(p['cb']) + len(p['eb']) >= 1 for p in w.pairs)
             if not ok:
@@ -224,6 +230,8 @@ def random_resp(rng, a):
         return ['resp', a, 'void', None, None]
     if r < 0.42:
         return ['resp', a, 'setks', None, None]
+    if r < 0.47:
+        return ['resp', a, 'schema', None, None]
     if r < 0.80:
         return ['resp', a, 'retry', rng.randrange(4), rng.choice(H.RETRY_CLASSES)]
     if r < 0.93:
@@ -260,6 +268,10 @@ def random_walk(rng, cfg, nsteps, punctual, illegal_p=0.05, resp_weight=3):
         for c, ch in enumerate(w.chains):
             for h in sorted(ch['waiting']):
                 cand += [['ksreport', c, h, rng.random() < 0.35]] * 2
+        for k in range(len(w.refreshes)):
+            cand += [['refresh', k]] * 3
+        if sent and not w.session.is_shutdown and rng.random() < 0.06:
+            cand += [['shutdown']] * 4
         if w.has_paging():
             plan = hosts[:]
             rng.shuffle(plan)
@@ -272,7 +284,7 @@ def random_walk(rng, cfg, nsteps, punctual, illegal_p=0.05, resp_weight=3):
             cand.append(['pools', dict((h, rng.choice(['ok', 'ok', 'ok', 'noconn', 'sendfail', 'shutdown', 'missing'])) for h in hosts)])
         if rng.random() < illegal_p:
             cand = [['resp', rng.randint(0, 4), 'rows', False, None], ['fire', rng.randint(0, 4)], ['run', rng.randint(0, 3)],
-                    ['ksreport', rng.randint(0, 1), rng.choice(hosts), False],
+                    ['ksreport', rng.randint(0, 1), rng.choice(hosts), False], ['refresh', rng.randint(0, 1)],
                     ['nextpage', hosts], ['result']]
             if punctual:
                 cand = [c for c in cand if c[0] != 'tick']
@@ -285,7 +297,7 @@ def random_walk(rng, cfg, nsteps, punctual, illegal_p=0.05, resp_weight=3):
 
 
 # ---------------------------------------------------------------------------------------------- exhaustive small scope
-def enumerate_orderings(cfg, kinds, max_depth, budget, allow_nextpage=True, final_tick=100000):
+def enumerate_orderings(cfg, kinds, max_depth, budget, allow_nextpage=True, final_tick=100000, shutdown_at=None):
     """All orderings of: a response (each kind) on any open attempt, the next due timer (clock moved to its due time
     first), any queued task, one page fetch.  Depth-first, each node replays its history on a fresh real future.
     Yields complete histories (leaves).  -> generator of ops; sets enumerate_orderings.capped."""
@@ -316,6 +328,10 @@ def enumerate_orderings(cfg, kinds, max_depth, budget, allow_nextpage=True, fina
                 for h in sorted(ch['waiting']):
                     for err in (False, True):
                         nxt.append(([['ksreport', c, h, err]], pages))
+            for k in range(len(w.refreshes)):
+                nxt.append(([['refresh', k]], pages))
+            if shutdown_at is not None and not w.session.is_shutdown and len(ops) >= shutdown_at:
+                nxt.append(([['shutdown']], pages))
             if allow_nextpage and w.has_paging() and pages < 1 and w.f._event.is_set():
                 nxt.append(([['nextpage', list(cfg['plan'])]], pages + 1))
         if not nxt:
@@ -381,6 +397,14 @@ def directed_histories():
                     ops = head + fail + [['nextpage', [1, 2]]] + again
                     ops = ops + fire_until_quiet(cfg, ops) + [['tick', 5000], ['result'], ['addcb']]
                     out.append((cfg, ops, True))
+            # Session.shutdown() before an answer is processed: the executor refuses retry / schema refresh
+            for resp in (['resp', 0, 'schema', None, None], ['resp', 0, 'retry', 0, 'ConnShutdown'], ['resp', 0, 'retry', 1, 'ConnShutdown'],
+                         ['resp', 0, 'retry', 1, 'ReadTimeout'], ['resp', 0, 'rows', False, None], ['resp', 0, 'setks', None, None]):
+                for pl in (None, {1: 'shutdown', 2: 'shutdown', 3: 'shutdown'}):
+                    ops = [['addcb'], ['send'], ['shutdown']] + ([['pools', pl]] if pl else []) + [resp]
+                    out.append((cfg, ops + fire_until_quiet(cfg, ops) + [['result']], True))
+            out.append((cfg, [['addcb'], ['send'], ['resp', 0, 'schema', None, None], ['shutdown'], ['refresh', 0], ['result']], True))
+            out.append((cfg, [['addcb'], ['send'], ['resp', 0, 'retry', 1, 'Overloaded'], ['shutdown'], ['run', 0], ['resp', 1, 'retry', 1, 'ConnShutdown'], ['result']], True))
             # USE statement: SET_KEYSPACE answer, then the pools report their internal USE in every order, each may fail
             import itertools
             for order in itertools.permutations([1, 2, 3]):
